@@ -59,7 +59,7 @@ def run(ctx):
         inputs = {'a': a, 'dt': dt, 'start': float(s), 'end': float(e)}
         ctx.count_case((a.tobytes(), dt, fs, fe), gen.nontrivial_record(a),
                        sample={'fn': 'calc_sig_dur_vals / calc_sig_dur / calc_brac_dur', **inputs} if ctx.evaluations % 997 == 0 else None)
-        asig = eqsig.AccSignal(a, dt)
+        asig = ctx.aged(eqsig.AccSignal, a, dt)
         # the Arias series is k*cumtrapz(a^2) with the irrational-ish double k = pi/(2*9.81): when a cumulative value lies EXACTLY on a
         # threshold in exact arithmetic, the impl's strict comparison is decided by the rounding of k*c — outside any exact model.
         cA = cum_trapz_sq(fa, fdt)
@@ -123,7 +123,7 @@ def run(ctx):
         fa = [fr(x) for x in a]
         fdt, fthr = fr(dt), fr(thr)
         inputs = {'a': a, 'dt': dt, 'threshold': float(thr)}
-        asig = eqsig.AccSignal(a, dt)
+        asig = ctx.aged(eqsig.AccSignal, a, dt)
         ctx.count_case(('brac', a.tobytes(), dt, fthr), gen.nontrivial_record(a))
         idx = [i for i, x in enumerate(fa) if abs(x) > fthr]
         for se in (True, False):
@@ -201,7 +201,7 @@ def run(ctx):
         brac(a, dt, Fraction(thr))
         # custom cumulative measures
         if i % 4 == 0:
-            asig = eqsig.AccSignal(a, dt)
+            asig = ctx.aged(eqsig.AccSignal, a, dt)
             for cname, fn in (('calc_cav', im.calc_cav), ('running-sum', lambda s_: np.cumsum(np.abs(s_.values)))):
                 series = [fr(x) for x in fn(asig)]
                 r = call_impl(im.calc_sig_dur, asig, start=float(s), end=float(e), im=fn, se=True)
@@ -211,12 +211,56 @@ def run(ctx):
                 ok = (r == ('err', 'IndexError')) if want is None else (r[0] == 'ok' and (fr(r[1][0]), fr(r[1][1])) == want)
                 ctx.oracle('C10.a [custom measure] first/last sample strictly between the fractions', ok,
                            {'a': a, 'dt': dt, 'start': float(s), 'end': float(e), 'im': cname}, detail=r)
+    # object histories: the durations are those of the object's CURRENT record, whatever was computed or cached on it before
+    # (deprecated statistics methods, earlier duration calls) and however the record was changed since
+    for i in range(40 if ctx.tier == 'quick' else 400):
+        n = rng.randint(8, 64)
+        a = gen.dyadic_record(rng, n)
+        dt = gen.dyadic_dt(rng)
+        asig = eqsig.AccSignal(a.copy(), dt)
+        cur = a.copy()
+        hist = []
+        for _ in range(rng.randint(2, 5)):
+            op = rng.choice(['generate_cumulative_stats', 'calc_sig_dur', 'calc_brac_dur', 'add_constant', 'add_series', 'reset_values', 'reverse'])
+            hist.append(op)
+            try:
+                if op == 'generate_cumulative_stats':
+                    asig.generate_cumulative_stats()
+                elif op == 'calc_sig_dur':
+                    im.calc_sig_dur(asig, start=0.25, end=0.75, se=True)
+                elif op == 'calc_brac_dur':
+                    im.calc_brac_dur(asig, 0.5, se=True)
+                elif op == 'add_constant':
+                    asig.add_constant(1.0)
+                    cur = cur + 1.0
+                elif op == 'add_series':
+                    d = gen.dyadic_record(rng, len(cur))
+                    asig.add_series(d)
+                    cur = cur + d
+                elif op == 'reset_values':
+                    cur = gen.dyadic_record(rng, len(cur))
+                    asig.reset_values(cur.copy())
+                else:
+                    cur = cur[::-1].copy()
+                    asig.reset_values(cur.copy())
+            except IndexError:
+                pass
+        s_, e_ = rng.choice(pairs)
+        got = call_impl(im.calc_sig_dur, asig, start=float(s_), end=float(e_), se=True)
+        want = call_impl(im.calc_sig_dur, eqsig.AccSignal(cur.copy(), dt), start=float(s_), end=float(e_), se=True)
+        gotb = call_impl(im.calc_brac_dur, asig, 0.5, se=True)
+        wantb = call_impl(im.calc_brac_dur, eqsig.AccSignal(cur.copy(), dt), 0.5, se=True)
+        ctx.hist('object-history')
+        ctx.count_case(('hist', a.tobytes(), tuple(hist)), True, sample={'fn': 'AccSignal history then calc_sig_dur', 'history': hist} if i < 2 else None)
+        ctx.oracle('C10 durations of an object are those of its CURRENT record after any history (stats generated, record edited)',
+                   got == want and gotb == wantb, {'a': a, 'dt': dt, 'history': hist, 'start': float(s_), 'end': float(e_)},
+                   detail={'object': [got, gotb], 'fresh object': [want, wantb]})
     # decimal fractions of the documentation (0.05 / 0.95 ...) on random noise: relations only, budget-free (indices)
     for i in range(30 if ctx.tier == 'quick' else 300):
         n = gen.log_int(rng, 20, 2000)
         a = gen.noise_record(rng, n)
         dt = gen.any_dt(rng)
-        asig = eqsig.AccSignal(a, dt)
+        asig = ctx.aged(eqsig.AccSignal, a, dt)
         ctx.hist('random/noise-decimal-fractions')
         ctx.count_case(('dec', a.tobytes(), dt), True)
         s, e = rng.choice([(0.05, 0.95), (0.05, 0.75), (0.1, 0.9), (0.25, 0.5)])
